@@ -76,8 +76,8 @@ Qed.
 Print Assumptions C02_model_built.
 
 (* Part 5: on the HARDWARE model (Hw.v: floo_route_select's IdTable decision with its 32-bit index field,
-   NoLoopback, signals followed from their driver to their reader), for every description and on both the
-   request and the response network: a flit injected at any interface s0 with the identity of any other
+   NoLoopback, signals followed from their driver to their reader), for every description and on every
+   physical network (request, response and, in narrow-wide networks, wide: `net_ok d nt`): a flit injected at any interface s0 with the identity of any other
    interface t is delivered to t.  Hypotheses, all decidable and all evaluated in the non-vacuity example:
    the wiring checker passes on the emitted netlist (C05, second half: every declared signal has one driver
    and one reader named by it -- the port pairing the proof also needs is C05_model, a theorem), shortest
@@ -87,7 +87,7 @@ Print Assumptions C02_model_built.
 From FV Require Import HwProofs.
 Theorem C02_hw_delivered :
   forall (d : desc) (g : graph) (c : compiled) (ri : rinfo) (n : netlist) (t : cni) (id : Z) (nt : net),
-    nt = Req \/ nt = Rsp ->
+    net_ok d nt ->
     build d = Ok g -> compile d g = Ok c -> gen_routing_info sp_reference c = Ok ri -> emit c ri = Ok n ->
     d_algo d = ID -> In t (c_nis c) -> id_num (cn_id t) = Ok id ->
     (forall u p, is_router c u -> sp_reference g u (cn_name t) = Some p -> forall x, In x (removelast p) -> is_router c x) ->
@@ -123,7 +123,7 @@ Proof. vm_compute. reflexivity. Qed.
 From FV Require Import Side WireProofs.
 Theorem C02_hw_delivered_model :
   forall (d : desc) (g : graph) (c : compiled) (ri : rinfo) (n : netlist) (t : cni) (id : Z) (nt : net),
-    nt = Req \/ nt = Rsp ->
+    net_ok d nt ->
     build d = Ok g -> compile d g = Ok c -> gen_routing_info sp_reference c = Ok ri -> emit c ri = Ok n ->
     d_algo d = ID -> In t (c_nis c) -> id_num (cn_id t) = Ok id ->
     (forall u p, is_router c u -> sp_reference g u (cn_name t) = Some p -> forall x, In x (removelast p) -> is_router c x) ->
@@ -145,7 +145,7 @@ Print Assumptions C02_hw_delivered_model.
    description. *)
 Theorem C02_hw_delivered_decidable :
   forall (d : desc) (g : graph) (c : compiled) (ri : rinfo) (n : netlist) (t : cni) (id : Z) (nt : net),
-    nt = Req \/ nt = Rsp ->
+    net_ok d nt ->
     build d = Ok g -> compile d g = Ok c -> gen_routing_info sp_reference c = Ok ri -> emit c ri = Ok n ->
     d_algo d = ID -> In t (c_nis c) -> id_num (cn_id t) = Ok id ->
     transitb sp_reference c t = true ->
@@ -166,4 +166,21 @@ Example C02_hw_decidable_nonvacuous :
         forallb (fun s0 => is_rtb c (snd (attach Req s0)) && is_rtb c (snd (attach Rsp s0))) (c_nis c)
     | Err _ => false
     end) [ex_star ID; ex_tree ID; ex_mesh ID] = true.
+Proof. vm_compute. reflexivity. Qed.
+
+(* the wide network of a narrow-wide description: every flit injected with the identity of another interface is
+   delivered there (the hypotheses of C02_hw_delivered_decidable hold, and the conclusion is evaluated) *)
+Example C02_hw_wide_nonvacuous :
+  match (do g <- build (ex_nw ID); do c <- compile (ex_nw ID) g; do ri <- gen_routing_info sp_reference c;
+         do n <- emit c ri; Ok (g, (c, (ri, n)))) with
+  | Ok (g, (c, (ri, n))) =>
+      forallb (transitb sp_reference c) (c_nis c) && names_sepb g Wide && single_attachb g c && links_typedb g c && degrees_fitb c &&
+      forallb (fun s0 => forallb (fun t =>
+          str_eqb (cn_name s0) (cn_name t) ||
+          match t_out (send n Wide (emit_ni (ex_nw ID) (ri_offset ri) s0) (HId (match cn_id t with IdN k => k | _ => 0 end))) with
+          | Delivered u _ => str_eqb u (cn_name t)
+          | _ => false
+          end) (c_nis c)) (c_nis c)
+  | Err _ => false
+  end = true.
 Proof. vm_compute. reflexivity. Qed.
